@@ -38,13 +38,16 @@ def setup_worker():
 def vf_case(draw, tier, two_axes=False):
     nm = draw(st.integers(2, 3))
     positions = sorted(draw(st.lists(st.integers(100, 900), min_size=nm, max_size=nm, unique=True)))
+    if draw(st.sampled_from([False, False, False, True])):
+        # design-space coordinates need not be integers (wdth 62.5, opsz 10.5 ...)
+        positions = [p + draw(st.sampled_from([0.0, 0.5, 0.25])) for p in positions]
     default_idx = draw(st.integers(0, nm - 1))
     mpos = None
     if two_axes:
         # wght x wdth: one master at the default of both axes, every other master off the default on exactly one axis; a master
         # may leave out the axis it is at the default of (the TOML allows it)
         w0, d0 = draw(st.sampled_from([400, 300])), draw(st.sampled_from([100, 90]))
-        w1, d1 = draw(st.sampled_from([700, 900])), draw(st.sampled_from([75, 50, 125]))
+        w1, d1 = draw(st.sampled_from([700, 900])), draw(st.sampled_from([75, 50, 125, 62.5, 112.5]))
         mpos = [{"wght": w0, "wdth": d0}, {"wght": w1, "wdth": d0}, {"wght": w0, "wdth": d1}]
         if draw(st.booleans()):
             mpos.append({"wght": draw(st.sampled_from([100, 200])), "wdth": d0})
@@ -99,6 +102,10 @@ def cases(tier):
     return st.one_of(vf_case(tier), vf_case(tier), vf_case(tier, two_axes=True))
 
 
+def _num(x):
+    return "%d" % x if float(x).is_integer() else repr(float(x))
+
+
 def svg_for(glyph, m):
     defs, body = "", ""
     for si, s in enumerate(glyph["shapes"]):
@@ -147,7 +154,7 @@ def judge(case):
         dflt = mpos[case["default"]]
         toml = common + ['output_file = "VF.ttf"']
         for a in axes:
-            toml += ["[axis.%s]" % a, 'name = "%s"' % {"wght": "Weight", "wdth": "Width"}[a], "default = %d" % dflt[a]]
+            toml += ["[axis.%s]" % a, 'name = "%s"' % {"wght": "Weight", "wdth": "Width"}[a], "default = %s" % _num(dflt[a])]
         names = case.get("names") or ["m%d" % i for i in range(nm)]
         omit = case.get("omit_default_axes") or [False] * nm
         if len(axes) > 1:
@@ -155,7 +162,7 @@ def judge(case):
         for m in case.get("order") or range(nm):  # file order, name order and position order are independent
             toml += ["[master.%s]" % names[m], 'style_name = "M%d"' % m, 'srcs = ["m%d/*.svg"]' % m, "[master.%s.position]" % names[m]]
             given = [a for a in axes if not (omit[m] and mpos[m][a] == dflt[a])] or axes[:1]
-            toml += ["%s = %d" % (a, mpos[m][a]) for a in given]
+            toml += ["%s = %s" % (a, _num(mpos[m][a])) for a in given]
         ws.write("vf.toml", "\n".join(toml) + "\n")
         rc, out = ws.run(["nanoemoji", "--build_dir", "build_vf", "vf.toml"], ninja_j=4)
         if rc != 0:
